@@ -28,12 +28,16 @@ RULE = ("case = (requests before / at / after a closing message of one of 7 kind
         "worker was active, and the schedule has >= 1 pre-emption; distinct by case hash")
 ASSUMPTIONS = ["one thread at a time (GIL); pre-emption at sync points (and source lines in line mode)",
                "the close decision instant is the first assignment of close_when_flushed / will_close on the connection's channel"]
-KINDS = ["conn_close", "http10", "bad_framing", "oversize", "app_no_length_10", "app_short", "app_exc", "app_exc_mid", "oversize_body", "none"]
+KINDS = ["conn_close", "http10", "bad_framing", "oversize", "app_no_length_10", "app_short", "app_exc", "app_exc_mid", "oversize_body", "te_non11", "none"]
+VERSIONS = ["1.0", "1.2", "2.0", "0.9"]
 EXCS = ["ValueError", "OSError", "ConnectionResetError", "FileNotFoundError", "SystemExit"]
 
 
-def req_bytes(i, kind=None):
+def req_bytes(i, kind=None, version="1.0"):
     p = "/k%d" % i
+    if kind == "te_non11":
+        # Transfer-Encoding on a request that is not HTTP/1.1: may be processed, but the connection is closed after this one message
+        return "GET %s HTTP/%s\r\nHost: h\r\nX-Conn: 0\r\nConnection: keep-alive\r\nTransfer-Encoding: chunked\r\n\r\n" % (p, version)
     if kind == "conn_close":
         return "GET %s HTTP/1.1\r\nHost: h\r\nX-Conn: 0\r\nConnection: close\r\n\r\n" % p
     if kind == "http10":
@@ -70,7 +74,7 @@ def to_scenario(case):
     pieces = [req_bytes(i) for i in range(n_before)]
     behs = [dict(OK_BEH) for _ in range(n_before)]
     k = n_before
-    pieces.append(req_bytes(k, kind))
+    pieces.append(req_bytes(k, kind, case.get("version", "1.0")))
     calls_app_at_k = kind not in ("bad_framing", "oversize", "oversize_body")
     if calls_app_at_k:
         behs.append(beh_for(kind, case.get("exc", "ValueError")))
@@ -122,6 +126,8 @@ def validate(case):
         raise C.CaseInvalid("arrival")
     if case.get("workers", 1) not in (1, 2, 3) or case.get("gran", "sync") not in ("sync", "line"):
         raise C.CaseInvalid("workers")
+    if case.get("version", "1.0") not in VERSIONS:
+        raise C.CaseInvalid("version")
     if case.get("exc", "ValueError") not in EXCS:
         raise C.CaseInvalid("exc")
     if case.get("capacity") is not None and (not isinstance(case["capacity"], int) or case["capacity"] < 1):
@@ -169,7 +175,7 @@ def run_case_full(case, source=None, record=False):
     if case["kind"] != "none" and len(finals) > k + 1:
         fail("response-after-close/%s" % case["kind"], "%d final responses, the closing message is number %d" % (len(finals), k))
     labels = {"kind:" + case["kind"], "lookahead:%d" % case.get("lookahead", 0), "arrival:" + case.get("arrival", "same"), "gran:" + case.get("gran", "sync")}
-    got_followup = sum(n for _t, n in c["recv_log"]) > len("".join(req_bytes(i) for i in range(case["before"]))) + len(req_bytes(k, case["kind"]))
+    got_followup = sum(n for _t, n in c["recv_log"]) > len("".join(req_bytes(i) for i in range(case["before"]))) + len(req_bytes(k, case["kind"], case.get("version", "1.0")))
     if got_followup:
         labels.add("followup-was-read")
     nontrivial = r.preemptions > 0 and (got_followup or c["unread_in"] > 0) and bool(case["after"])
@@ -183,7 +189,7 @@ def run_case(case):
 def case_strategy():
     return st.fixed_dictionaries({
         "before": st.integers(0, 2), "kind": st.sampled_from(KINDS[:-1] + ["conn_close", "app_exc", "app_exc_mid"]),
-        "exc": st.sampled_from(EXCS), "lse": st.booleans(),
+        "exc": st.sampled_from(EXCS), "lse": st.booleans(), "version": st.sampled_from(VERSIONS),
         "after": st.lists(st.sampled_from(["req", "req", "partial", "garbage"]), min_size=1, max_size=3),
         "arrival": st.sampled_from(["same", "later", "later", "split"]), "lookahead": st.sampled_from([0, 1, 1, 2, 5]),
         "workers": st.sampled_from([1, 1, 2]), "capacity": st.sampled_from([None, None, 10, 60]), "drain": st.sampled_from(["all", 8]),
@@ -204,6 +210,9 @@ FIXED = [
     {"before": 0, "kind": "app_exc_mid", "exc": "ConnectionResetError", "lse": False, "after": ["req", "req"], "arrival": "same", "lookahead": 1, "workers": 1},
     {"before": 1, "kind": "app_exc_mid", "exc": "FileNotFoundError", "lse": False, "after": ["req"], "arrival": "later", "lookahead": 0, "workers": 2},
     {"before": 0, "kind": "app_exc", "exc": "OSError", "lse": False, "after": ["req"], "arrival": "same", "lookahead": 2, "workers": 1},
+    {"before": 0, "kind": "te_non11", "version": "1.0", "after": ["req"], "arrival": "same", "lookahead": 1, "workers": 1},
+    {"before": 1, "kind": "te_non11", "version": "1.2", "after": ["req", "req"], "arrival": "later", "lookahead": 2, "workers": 2},
+    {"before": 0, "kind": "te_non11", "version": "0.9", "after": ["req"], "arrival": "later", "lookahead": 0, "workers": 1},
 ]
 
 
